@@ -184,6 +184,45 @@ def run_case(case):
                 entered = False
             mon.ok("scope_refused", not entered, f"{kind}({val!r}) must be refused")
             return
+        style = rng.random()
+        if style < 0.12 and depth < 3:
+            # scope objects created first and entered later, nested (contextlib.ExitStack, a list of scopes): the scope
+            # a register is named by is the one it is added in, not the one that existed when the object was made
+            val2 = rng.randint(0, 3)
+            outer_cm = b.Cluster(val) if kind == "cluster" else b.Index(val)
+            inner_cm = b.Index(val2)
+            mon.count("scope_objects_created_before_entry")
+            with outer_cm:
+                st["scope"].append(val)
+                do_add()
+                with inner_cm:
+                    st["scope"].append(val2)
+                    do_add()
+                    st["scope"].pop()
+                do_add()
+                st["scope"].pop()
+            do_add()
+            return
+        if style < 0.24 and depth < 3:
+            # a generator that opens scopes and yields inside them, abandoned by its consumer: closing it raises
+            # GeneratorExit (not an Exception subclass) through the scopes, which must be left all the same
+            def bank():
+                with (b.Cluster(val) if kind == "cluster" else b.Index(val)):
+                    st["scope"].append(val)
+                    try:
+                        for _k in range(3):
+                            do_add()
+                            yield _k
+                    finally:
+                        st["scope"].pop()
+            g = bank()
+            next(g)
+            if rng.random() < 0.5:
+                next(g)
+            g.close()
+            mon.count("scopes_left_by_generator_exit")
+            do_add()
+            return
         st["scope"].append(val)
         mon.log(f"enter {kind}({val!r})")
         try:
